@@ -19,6 +19,8 @@ LayerA == IF Rec.exit \notin {0, 1} THEN "Exit"
                     (IF L = "unknown" THEN "UnknownTypeAnalysed" ELSE "WrongLanguage")
           ELSE IF ~Rec.same_as_canonical THEN "ExtensionCase"
           ELSE IF ~Rec.same_with_other_settings THEN "OtherSectionsMatter"
+          \* the language of a file is a matter of its name and first line, not of where the command is started
+          ELSE IF ~Rec.same_from_other_cwd THEN "LanguageDependsOnCwd"
           ELSE "ok"
 
 TraceInit == tid = 1 /\ ext = "py" /\ shebang = "no" /\ content = "python" /\ cmd = "nesting" /\ done = FALSE
